@@ -64,6 +64,7 @@ type fdinfo struct {
 	vn   vnode
 	path string
 	peer int // for pipes
+	ser  int // serial number of this open (descriptor numbers are reused, serials are not)
 }
 
 type knote struct {
@@ -145,8 +146,8 @@ func Open(path string, mode int, perm uint32) (int, error) {
 	}
 	mu.Lock()
 	defer mu.Unlock()
-	fds[fd] = &fdinfo{kind: "file", vn: vnode{uint64(st.Dev), st.Ino}, path: path}
 	Opens++
+	fds[fd] = &fdinfo{kind: "file", vn: vnode{uint64(st.Dev), st.Ino}, path: path, ser: Opens}
 	return fd, nil
 }
 
@@ -369,7 +370,7 @@ func notify(v vnode, note uint32) []SimNote {
 			}
 			kn.fflags |= hit
 			kq.activate(kn)
-			out = append(out, SimNote{Kq: id, Fd: ident, Note: hit})
+			out = append(out, SimNote{Kq: id, Fd: ident, Note: hit, Serial: fi.ser})
 		}
 	}
 	if len(out) > 0 {
@@ -383,6 +384,9 @@ type SimNote struct {
 	Kq   int    `json:"kq"`
 	Fd   int    `json:"fd"`
 	Note uint32 `json:"note"`
+	// Serial identifies the open the knote hangs on: a note on a descriptor that is closed before the reader
+	// retrieves it is never delivered, and the descriptor number may be in use again by then.
+	Serial int `json:"serial"`
 }
 
 func vnodeOf(path string, follow bool) (vnode, bool) {
@@ -418,6 +422,7 @@ type SimFd struct {
 	Fd   int    `json:"fd"`
 	Kind string `json:"kind"`
 	Path string `json:"path"`
+	Ser  int    `json:"serial"`
 }
 
 func SimOpenFds() []SimFd {
@@ -425,7 +430,7 @@ func SimOpenFds() []SimFd {
 	defer mu.Unlock()
 	out := make([]SimFd, 0, len(fds))
 	for fd, fi := range fds {
-		out = append(out, SimFd{fd, fi.kind, fi.path})
+		out = append(out, SimFd{fd, fi.kind, fi.path, fi.ser})
 	}
 	sort.Slice(out, func(i, j int) bool { return out[i].Fd < out[j].Fd })
 	return out
